@@ -16,8 +16,9 @@ pub struct Case {
     pub kind: String,
 }
 
-pub const PIECES: [&str; 16] =
-    ["a", "b", "c", "d", "-", "1", "2", ".", "*", "?", "[0-9]", ">=", "<", ">", "", "a-"];
+pub const PIECES: [&str; 22] = [
+    "a", "b", "c", "d", "-", "1", "2", ".", "*", "?", "[0-9]", ">=", "<", ">", "", "a-", "[a,b]", "[", "]", "[!a-c]", "é", "<=",
+];
 
 #[derive(Clone, Debug)]
 enum Node {
@@ -352,7 +353,7 @@ pub fn check(c: &Case, obs: &mut Obs) -> Result<(), String> {
 pub fn property() -> Property {
     Property {
         id: "C04",
-        rule: "Patterns from the csh brace grammar (nesting depth <= 3, <= 4 items per level, 1-3 alternatives incl. empty ones, text pieces a b c d - 1 2 . * ? [0-9] >= < > and empty), bounded to <= 10 groups / <= 256 expansions (thorough: 14 / 1024); unbalanced variants by deleting / inserting / flipping one brace and random strings over { } , a. Names: (i) an instance of a randomly chosen true expansion (plain -> itself, glob -> instantiated, dewey -> base-version around the bounds); (ii) decoys = instances of strings produced by deliberately wrong expanders (first-'}' pairing with all-depth comma split, first-'{'/last-'}' pairing, dropped empty alternatives, braces ignored) that are not true expansions; (iii) one-character mutations of (i). Oracle: Pattern::new is Ok iff braces are properly nested (M-brace balanced); when Ok, matches(name) iff some string of M-brace expand(pattern) compiles and matches name as a pattern in its own right. Non-trivial = nesting depth >= 2 or >= 2 groups, >= 2 expansions, name of kind (i) or (ii). Distinct = distinct (pattern, name).",
+        rule: "Patterns from the csh brace grammar (nesting depth <= 3, <= 4 items per level, 1-3 alternatives incl. empty ones, text pieces a b c d - 1 2 . * ? [0-9] [a,b] [!a-c] [ ] é >= <= < > and empty), bounded to <= 10 groups / <= 256 expansions (thorough: 14 / 1024); unbalanced variants by deleting / inserting / flipping one brace and random strings over { } , a. Names: (i) an instance of a randomly chosen true expansion (plain -> itself, glob -> instantiated, dewey -> base-version around the bounds); (ii) decoys = instances of strings produced by deliberately wrong expanders (first-'}' pairing with all-depth comma split, first-'{'/last-'}' pairing, dropped empty alternatives, braces ignored) that are not true expansions; (iii) one-character mutations of (i). Oracle: Pattern::new is Ok iff braces are properly nested (M-brace balanced); when Ok, matches(name) iff some string of M-brace expand(pattern) compiles and matches name as a pattern in its own right. Non-trivial = nesting depth >= 2 or >= 2 groups, >= 2 expansions, name of kind (i) or (ii). Distinct = distinct (pattern, name).",
         assumptions: vec![
             "brace-free expansions are judged by the library itself ('matches as a pattern in its own right'); that machinery is checked independently by C02/C05",
             "patterns above the group/expansion bound are only checked for compile-ability",
